@@ -37,6 +37,8 @@ func c08Alphabet(thorough bool) []string {
 		a = append(a, "unsub:"+v[0]+":"+v[1]+":"+v[2]+":d")
 	}
 	a = append(a, "unsub:A:nm:Lnm:d", "unsub:A:e1f1:L1lc:n", "unsub:A:e1f9:L1lc:d", "unsub:A:e1f1:L1x:d", "unsub:B:e2f2:L2lc:d")
+	// a delete whose client address names the other peer's device (same numbers): no entry of the sender
+	a = append(a, "unsub:B:e1f1:L1lc:x", "unsub:A:e1f1:L2lc:x")
 	// data changes
 	a = append(a, "set:L1lc:2", "set:L1lc:1", "upd:L1lc:2", "set:L2lc:1")
 	if thorough {
